@@ -168,24 +168,9 @@ def rule_search_direction(ck):
     fl = flow_of(df)
     cfg = fl.cfg
     levels = df.params[1]
-    idx_defs = [n for n in cfg.nodes if n.kind == "stmt" and isinstance(n.stmt, (ast.Assign, ast.AugAssign)) and
-                any(dotted(t) == "feasible_idx" for t in (n.stmt.targets if isinstance(n.stmt, ast.Assign) else [n.stmt.target]))]
-    init = [n for n in idx_defs if isinstance(n.stmt, ast.Assign) and not [t for t, lab in cfg.edges_dominating(n) if isinstance(t.stmt, ast.While)]]
-    steps = [n for n in idx_defs if n not in init]
-    ck.require(len(init) == 1 and linear(init[0].stmt.value, norm=canon) == Lin({f"len({levels})": 1}, -1), "C08.R3", df, init[0].stmt if init else "feasible_idx = len(levels) - 1",
-               ok="starts at the largest candidate", bad="the discrete search does not start at the last (largest) candidate level", sink="discrete:start")
-    ck.require(len(steps) == 1, "C08.R3", df, "feasible_idx -= 1", bad=f"{len(steps)} updates of the candidate index inside the loop", sink="discrete:steps")
-    for n in steps:
-        s = n.stmt
-        ok = (isinstance(s, ast.AugAssign) and isinstance(s.op, ast.Sub) and canon(s.value) == "1") or \
-            (isinstance(s, ast.Assign) and linear(s.value, norm=canon) == Lin({"feasible_idx": 1}, -1))
-        ck.require(ok, "C08.R3", df, s, ok="steps down by exactly one level", bad=f"`{src(s)}`: the search must step down by exactly 1 (skipping a level can miss the largest feasible one)",
-                   sink="discrete:step")
-    cand = [n for n in cfg.nodes if n.kind == "stmt" and isinstance(n.stmt, ast.Assign) and isinstance(n.stmt.targets[0], ast.Subscript)
-            and dotted(n.stmt.targets[0].value) == "new_schedule" and not isinstance(n.stmt.value, ast.Constant)]
-    ck.require(bool(cand) and all(canon(n.stmt.value) == f"{levels}[feasible_idx]" and canon(n.stmt.targets[0].slice) == "station_index" for n in cand), "C08.R3", df,
-               cand[0].stmt if cand else "new_schedule[station_index] = levels[feasible_idx]", ok="candidate = the level at the current index, at the station",
-               bad="the candidate written into the schedule is not allowable_pilots[feasible_idx] at station_index", sink="discrete:candidate")
+    # largest level first, one position at a time, 0 only after the last candidate failed, and what is returned was found feasible
+    from .discrete import rule_discrete_search
+    rule_discrete_search(ck, rid_safe="C08.R3", rid_max="C08.R3", which=("safe", "max"))
     # the candidates passed by the caller are ascending: allowable levels are stored sorted (C13-R5) and filtered in order
     sa = repo.fn("SortedSchedulingAlgo.sorting_algorithm")
     sl = flow_of(sa)
